@@ -434,6 +434,64 @@ def js_pure(prog: Program) -> RuleResult:
     return r
 
 
+def js_leaf(prog: Program) -> RuleResult:
+    """Strings, numbers, booleans and null are JSON already: writer and reader hand them back *as they are*. The reader's entry point
+    hands its argument to the dispatcher untouched on every path (it is called for every nested item and field, so whatever it does to a
+    string - parsing text that happens to look like JSON, stripping, decoding - it does to every string in the document), and the
+    dispatcher answers a leaf with the very value it was given; the writer does the same for a leaf that carries no type tag."""
+    from ..dtable import explore, Sym, App, term
+
+    r = RuleResult("JS-LEAF", "JSON leaves pass through reader and writer unchanged", floor=3)
+    mod = "krrood.adapters.json_serializer"
+    entry = prog.functions.get(mod + ".from_json")
+    ser = prog.cls("json_serializer.SubclassJSONSerializer")
+    disp = prog.lookup(ser.qual, "from_json")
+    writer = prog.functions.get(mod + ".to_json")
+    if entry is None or disp is None or writer is None:
+        raise AnalysisError("JS-LEAF: from_json / SubclassJSONSerializer.from_json / to_json vanished")
+    # the entry point: every path is `return SubclassJSONSerializer.from_json(<the parameter>, ...)`, nothing else is done with the parameter
+    p = entry.params[0]
+    bad = None
+    paths = explore(prog, entry, [Sym(p)], max_paths=200)
+    for val, out, calls in paths:
+        touching = [x for x in calls if isinstance(x, App) and any(term(a) == p or f"({p}" in term(a) or f" {p}" in term(a) for a in x.args) and not x.fn.endswith(".from_json")]
+        decided = [k for k in val if any(str(part) == p for part in k[1:])]
+        if out[0] != "return" or not (isinstance(out[1], App) and out[1].fn.endswith("SubclassJSONSerializer.from_json") and out[1].args and term(out[1].args[0]) == p):
+            bad = bad or f"on the path {dict(val)} the result is {term(out[1])[:80] if len(out) > 1 else out[0]}"
+        elif touching:
+            bad = bad or f"{term(touching[0])[:80]} is applied to the data before it is dispatched"
+        elif decided:
+            bad = bad or f"the path depends on the data ({decided[0][1:]})"
+    r.check(bad is None, "from_json#hands-the-data-on-untouched", site(entry), f"{len(paths)} path(s)", "every path returns SubclassJSONSerializer.from_json(data, ...) for the data as given",
+            f"{bad}: the entry point is called for every nested item, so a string value whose text happens to be valid JSON ('42', 'true', 'null', '[]') comes back decoded "
+            "instead of as the string that was serialised")
+    # the dispatcher and the writer on a leaf; the module's tables of leaf / list-like classes are found by what they list
+    m = entry.module
+    def table_with(cls_name):
+        for gname, st in m.globals_.items():
+            v = getattr(st, "value", None)
+            if isinstance(v, (ast.Tuple, ast.List)) and any(isinstance(e, ast.Name) and e.id == cls_name for e in v.elts):
+                return gname
+        raise AnalysisError(f"JS-LEAF: no module-level table of classes listing {cls_name} found")
+    leaf_c, list_c = table_with("str"), table_with("list")
+    dp = disp.params[1]
+    paths = explore(prog, disp, [Sym("cls"), Sym(dp)], preset={("isinstance", dp, leaf_c): True, ("isinstance", dp, list_c): False}, max_paths=200)
+    ok = bool(paths) and all(o[0] == "return" and term(o[1]) == dp and not calls for _v, o, calls in paths)
+    r.check(ok, "SubclassJSONSerializer.from_json#leaf-is-returned-as-it-is", site(disp), f"{len(paths)} path(s)", "a leaf is returned unchanged, nothing is called on it",
+            "a JSON leaf is not handed back as it is by the reader")
+    import builtins
+
+    wp = writer.params[0]
+    paths = explore(prog, writer, [Sym(wp)], preset={("isinstance", wp, leaf_c): True, ("isinstance", wp, list_c): False, ("isinstance", wp, "SubclassJSONSerializer"): False}, max_paths=200)
+    plain = [o for _v, o, _c in paths if o[0] == "return" and term(o[1]) == wp]
+    other = [o for v, o, _c in paths if not (o[0] == "return" and term(o[1]) == wp)
+             and not (o[0] == "return" and isinstance(o[1], App) and any("get_serializer" in str(k[1]) for k in v) and o[1].fn.isidentifier()
+                      and not hasattr(builtins, o[1].fn) and (m.name + "." + o[1].fn) not in prog.functions)]
+    r.check(bool(plain) and not other, "to_json#untagged-leaf-is-returned-as-it-is", site(writer), f"{len(paths)} path(s)", "a leaf without registered serializer is returned unchanged",
+            f"a JSON leaf that carries no type tag is not written as it is ({term(other[0][1])[:60] if other and len(other[0]) > 1 else ''})")
+    return r
+
+
 def _shared_default(prog):
     # the writer and reader keep nothing between calls, default arguments included
     from .shareddefault import shared_default
@@ -442,4 +500,4 @@ def _shared_default(prog):
 
 
 def run(prog: Program, tier: str) -> List[RuleResult]:
-    return [js_tag(prog, tier), js_agree(prog), js_pure(prog), _shared_default(prog)]
+    return [js_tag(prog, tier), js_agree(prog), js_pure(prog), _shared_default(prog), js_leaf(prog)]
